@@ -323,7 +323,7 @@ func (d *dataRun) replyPipe(c DataCase, ids, pl []byte, out map[string]interface
 		return
 	}
 	res := new(Res)
-	settings := []erpc.MessageSetting{erpc.WithSetMeta(MetaKey, "m-x")}
+	settings := MetaFor("rp")
 	if len(ids) > 0 {
 		settings = append(settings, erpc.WithXferPipe(ids...))
 	}
